@@ -488,6 +488,9 @@ class ModelExport:
 
                     if child_node is not None:
                         children.append(child_node)
+                case Const():
+                    # constants are inlined into the operations that load them
+                    continue
                 case _:
                     error = f"Unexpected operation in CFG {node}"
                     raise ValueError(error)
